@@ -85,6 +85,9 @@ pub struct AstLowering {
     /// When lowering methods inside an impl block, this tracks the current target type name.
     /// Used to avoid rewriting `T(x)` inside `impl T` bodies (e.g. inside `T.from_underlying`).
     pub(super) current_impl_type: Option<String>,
+    /// Names of the module-level functions of this file. A call `Name(...)` to one of these is a function call even
+    /// when the name starts with an uppercase letter (the constructor heuristic must not apply to it).
+    pub(super) function_names: std::collections::HashSet<String>,
 }
 
 impl AstLowering {
@@ -174,6 +177,7 @@ impl AstLowering {
             type_info: None,
             newtype_checked_ctor: HashMap::new(),
             current_impl_type: None,
+            function_names: std::collections::HashSet::new(),
         }
     }
 
@@ -263,6 +267,7 @@ impl AstLowering {
                     })
                     .collect();
                 let return_type = self.lower_type(&f.return_type.node);
+                self.function_names.insert(f.name.clone());
                 ir_program
                     .function_registry
                     .register(f.name.clone(), params, return_type);
